@@ -170,6 +170,18 @@ def _key_names(fi, p=None):
     return out
 
 
+def _walk_through_locals(fi, expr, depth=0):
+    """the nodes of expr and, for a local name bound exactly once in fi by a plain assignment (`flag = set_value("--" + name)`), the
+    nodes of what it was assigned: a slot prepared in a local is the same slot"""
+    for x in ast.walk(expr):
+        yield x
+        if isinstance(x, ast.Name) and isinstance(x.ctx, ast.Load) and depth < 4 and x.id not in fi.params():
+            stores = [t for t in ast.walk(fi.node) if isinstance(t, ast.Name) and t.id == x.id and isinstance(t.ctx, (ast.Store, ast.Del))]
+            plain = [st for st in ast.walk(fi.node) if isinstance(st, ast.Assign) and len(st.targets) == 1 and isinstance(st.targets[0], ast.Name) and st.targets[0].id == x.id]
+            if len(stores) == 1 and len(plain) == 1:
+                yield from _walk_through_locals(fi, plain[0].value, depth + 1)
+
+
 def _slot_ok_fn(prog, fi, ctor, slot_of, depth=0, keys=None, item="__first__"):
     """every `ctor(...)` built in fi (and in functions it returns the result of) names its slot by the key.
     `item` is the parameter of fi holding the (name, dict) pair, `keys` the names of fi known to hold the parameter's key;
@@ -190,7 +202,7 @@ def _slot_ok_fn(prog, fi, ctor, slot_of, depth=0, keys=None, item="__first__"):
             if slot is None:
                 continue
             n += 1
-            if not any(is_key_expr(x) for x in ast.walk(slot)):
+            if not any(is_key_expr(x) for x in _walk_through_locals(fi, slot)):
                 probs.append("%s names its element by %s, not by the parameter's key" % (ctor, src(slot, 40)))
     for r in ast.walk(fi.node):
         if isinstance(r, ast.Return) and isinstance(r.value, ast.Call) and depth < 3:
